@@ -6,8 +6,11 @@ package aggregation
 
 // accessors used by the renderers: read-only, rows are never nil
 // min/max over the cells of every row and every known column (absent cell = 0): both are bounds
+// (wf_table is the table's object invariant: its fields are unexported, NewTable establishes it,
+// Sample/SampleItem are proved to preserve it; Trim only deletes entries - its preservation is
+// covered by the bounded oracle, not proved)
 //@ func (*TableAggregator).ComputeMinMax
-//@   requires wf_table(s)
+//@   requires [objinv] wf_table(s)
 //@   pure
 //@   ensures [bounds] forall rk: str :: forall ck: str :: in_dom(s.rows, rk) && in_dom(s.cols, ck) ==> min <= cell(s, rk, ck) && cell(s, rk, ck) <= max
 //@   loop 1 invariant wf_table(s) && (min == MaxInt64 || min <= max)
